@@ -38,6 +38,25 @@ def sw_edges(body, origin, rx):
     return out
 
 
+def field_read_blocks(body, field_rx):
+    """Blocks in which a place with a field matching field_rx is read (rvalue of a statement or operand of the terminator)."""
+    rx = re.compile(field_rx)
+
+    def has(o):
+        if isinstance(o, dict):
+            if 'l' in o and any(isinstance(x, str) and rx.search(x) for x in (o.get('p') or [])):
+                return True
+            return any(has(v) for v in o.values())
+        if isinstance(o, list):
+            return any(has(v) for v in o)
+        return False
+    out = []
+    for i, blk in enumerate(body.blocks):
+        if i in body.live_blocks() and (any(has(s_.get('rv')) for s_ in blk['s']) or has({k: v for k, v in blk['t'].items() if k != 'dest'})):
+            out.append(i)
+    return out
+
+
 def refuses(body, starts):
     """No Ok return reachable from starts (Err-producing blocks cut the path)."""
     errs = flow.err_blocks(body)
@@ -146,6 +165,15 @@ def run(ctx, prog):
     oras = flow.Origin(ras, stop_at_vars=True)
     g = sw_edges(ras, oras, r'^cmp\[\+ arg:self→WalReader\.corrupted_entries >= 1\]$')
     gpass = sw_edges(ras, oras, r'^!cmp\[\+ arg:self→WalReader\.corrupted_entries >= 1\]$')
+    fresh = True
+    if not g or not gpass:
+        # the counter copied into a named local before it is tested: the same guard on the fully expanded origin — provided the copy is taken AFTER the frames were
+        # read (every read of the counter lies strictly behind the read_all call); a copy taken before the call would be the stale count
+        oras_full = flow.Origin(ras)
+        g = sw_edges(ras, oras_full, r'^cmp\[\+ arg:self→WalReader\.corrupted_entries >= 1\]$')
+        gpass = sw_edges(ras, oras_full, r'^!cmp\[\+ arg:self→WalReader\.corrupted_entries >= 1\]$')
+        ra_ = ras.calls_to('WalReader::read_all')
+        fresh = len(ra_) == 1 and all(rb != ra_[0].bb and ras.dominates(ra_[0].bb, rb) for rb in field_read_blocks(ras, r'WalReader\.corrupted_entries$'))
     if not g or not gpass:
         ctx.inst('C13.R2', ras.short, 'Ok only when corrupted_entries == 0', False, 'anchor missing: no `corrupted_entries > 0` guard in a recognised form')
     else:
@@ -154,8 +182,9 @@ def run(ctx, prog):
         dom = not any(x in r for x in ras.return_blocks())
         ra = ras.calls_to('WalReader::read_all')
         use = util.result_use(ras, ra[0]) if ra else 'missing'
-        ctx.inst('C13.R2', ras.short, 'Ok only when corrupted_entries == 0', fails_refuse and dom and use == 'propagated',
-                 'corrupted>0 edge refuses: %s; every Ok return passes the ==0 edge: %s; read_all result: %s' % (fails_refuse, dom, use))
+        ctx.inst('C13.R2', ras.short, 'Ok only when corrupted_entries == 0', fails_refuse and dom and use == 'propagated' and fresh,
+                 'corrupted>0 edge refuses: %s; every Ok return passes the ==0 edge: %s; read_all result: %s' % (fails_refuse, dom, use) +
+                 ('' if fresh else '; the tested count is read before read_all has run (stale)'))
     sl = ctx.body('C13.R2', 'Snapshot::load')
     # roles, not names: the computed checksum is the u32 returned by crc32fast::hash, the version header the u32 decoded by bincode::deserialize_from.  The magic word
     # and the stored checksum are both `u32::from_le_bytes(<4 bytes read>)` — what tells them apart is what they are compared WITH, so the three guards are recognised
